@@ -140,6 +140,12 @@ def flagStep2 (x : List (Option Rat)) : Bool :=
   let valid := x.filterMap id
   decide (valid.length ≥ 2) && decide (valid.length < x.length) && decide (valid.eraseDups.length ≠ valid.length)
 
+/-- step 1: equal scaled values that come from different (value, day of year) pairs — equal in exact arithmetic, an ulp
+    apart (or not) in floats -/
+def flagScaleTie (vals : List Rat) (doy : List Int) (scaled : List Rat) : Bool :=
+  let s := (scaled.zip (vals.zip doy)).mergeSort (fun a b => decide (a.1 ≤ b.1))
+  (s.zip s.tail).any (fun p => p.1.1 == p.2.1 && p.1.2 != p.2.2)
+
 def showFlags (fs : List (String × Bool)) : String :=
   let l := (fs.filter (·.2)).map (·.1)
   if l.isEmpty then "-" else ",".intercalate l
@@ -234,6 +240,22 @@ def step (line : String) : String :=
       | .ok (o, h, f, cyc) => s!"ok {out o} {out h} {out f} {match cyc with | some l => out l | none => "none"}"
       | .error e => err e
     | _, _, _, _, _, _, _ => "bad-op"
+  | ["applyloc", mode, c, L, S, dO, dH, dF, mO, mH, mF, yO, yH, yF, obs, H, F] =>
+    -- `apply_location` for configurations that need no oracle and no draw (default `Oracles` / `Draws`)
+    match cfg? c, parseInt? L, parseInt? S, ints? dO, ints? dH, ints? dF, ints? mO, ints? mH, ints? mF with
+    | some c, some L, some S, some dO, some dH, some dF, some mO, some mH, some mF =>
+      match ints? yO, ints? yH, ints? yF, rats? obs, rats? H, rats? F with
+      | some yO, some yH, some yF, some obs, some H, some F =>
+        let r := if mode = "rw" then applyLocationRW c ratSigmoid (fun _ => {}) (fun _ => {}) L S dO dH dF yO yH yF obs H F
+                 else applyLocationMonths c ratSigmoid (fun _ => {}) (fun _ => {}) mO mH mF dO dH dF yO yH yF obs H F
+        let tie := match step1 c obs H F dO dH dF with
+          | .ok (o1, h1, f1, _) => c.scaleByAnnualCycle && (flagScaleTie obs dO o1 || flagScaleTie H dH h1 || flagScaleTie F dF f1)
+          | .error _ => false
+        match r with
+        | .ok v => s!"ok {showOptList showRat v} {showFlags [("ctie", tie)]}"
+        | .error e => err e
+      | _, _, _, _, _, _ => "bad-op"
+    | _, _, _, _, _, _, _, _, _ => "bad-op"
   | ["step8", c, F, cyc, dF] =>
     match cfg? c, rats? F, (if cyc = "none" then some none else (rats? cyc).map some), ints? dF with
     | some c, some F, some cyc, some dF =>
